@@ -529,6 +529,30 @@ pub fn main(args: &[String]) {
                         rep.distinct += 1;
                     }
                 }
+                // structured requests: single characters (everything but one glyph's share of every table is dropped and
+                // renumbered) and almost the whole font with every seventh glyph id left out (gaps under retained ids; long
+                // loca offsets in the big fonts)
+                let singles = (per / 4).max(2).min(cps.len());
+                for k in 0..singles {
+                    rep.evaluations += 1;
+                    let cp = cps[(k * cps.len() / singles + rng.below((cps.len() / singles).max(1) as u64) as usize).min(cps.len() - 1)];
+                    let r = Request { gids: vec![], cps: vec![cp], retain: false, notdef: true, no_hinting: false, overlaps: false };
+                    if let Some(o) = run_subset(&name, &bytes, &r, &mut rng, None, &mut rep) {
+                        ev.push(o.event.clone());
+                        rep.distinct += 1;
+                    }
+                }
+                if n > 8 && n <= 3000 {
+                    for retain in if per >= 60 { vec![true, false] } else { vec![true] } {
+                        rep.evaluations += 1;
+                        let skip = rng.below(7) as u32;
+                        let r = Request { gids: (0..n).filter(|g| g % 7 != skip).collect(), cps: vec![], retain, notdef: true, no_hinting: false, overlaps: false };
+                        if let Some(o) = run_subset(&name, &bytes, &r, &mut rng, None, &mut rep) {
+                            ev.push(o.event.clone());
+                            rep.distinct += 1;
+                        }
+                    }
+                }
                 // pinned requests: inputs of recorded findings, so that every tier reports them the same way
                 for (font, pcps, pgids) in [("Comfortaa-Regular-new.ttf", vec![8805u32], vec![825u32])] {
                     if name == font {
@@ -582,6 +606,35 @@ pub fn main(args: &[String]) {
                 }
                 ev.push(json!({"op": "subset_determinism", "font": name, "same": same}));
                 rep.distinct += 1;
+            }
+        }
+        Some("bigcmap") => {
+            // a font whose characters are runs of consecutive code points (plus one character beyond the BMP so that a
+            // format 12 subtable exists): requesting every other character needs more format 4 segments than
+            // 64 KiB hold - the subset must still open and map every requested character (through the format 12 subtable)
+            use read_fonts::tables::glyf::CurvePoint;
+            use write_fonts::tables::glyf::{Bbox, Contour, Glyph, SimpleGlyph};
+            let n: u32 = arg_after(args, "--glyphs").map(|s| s.parse().unwrap()).unwrap_or(20_000);
+            // runs of ten consecutive code points (2000 segments: the source table is big enough for the subsetter's
+            // output buffer policy, 256 times the source table, not to be what fails)
+            let cp_of = move |g: u32| -> u32 { if g == n { 0x10000 } else { 0x1000 + g + g / 10 } };
+            let mut rng = Rng::new(0xb16c);
+            let mut glyphs = vec![Glyph::Empty];
+            for g in 1..=n {
+                let w = 10 + (g % 900) as i16;
+                let pts: Vec<CurvePoint> = vec![CurvePoint::new(0, 0, true), CurvePoint::new(w, 0, true), CurvePoint::new(w, 5 + (g % 7) as i16, true)];
+                glyphs.push(Glyph::Simple(SimpleGlyph { bbox: Bbox { x_min: 0, y_min: 0, x_max: w, y_max: 12 }, contours: vec![Contour::from(pts)], instructions: vec![] }));
+            }
+            let cmap = write_fonts::tables::cmap::Cmap::from_mappings((1..=n).map(|g| (char::from_u32(cp_of(g)).unwrap(), GlyphId::new(g)))).expect("cmap");
+            let opts = crate::synth::SynthOpts { metrics: vec![(600, 0)], extra: vec![(Tag::new(b"cmap"), write_fonts::dump_table(&cmap).unwrap())], ..Default::default() };
+            let font = crate::synth::truetype_font(&glyphs, &opts).expect("big cmap font");
+            for (what, step, retain) in [("every other character", 2u32, false), ("every other character", 2, true), ("every third character", 3, false)] {
+                rep.evaluations += 1;
+                let r = Request { gids: vec![], cps: (1..n).step_by(step as usize).map(cp_of).chain([0x10000]).collect(), retain, notdef: true, no_hinting: false, overlaps: false };
+                if let Some(o) = run_subset(&format!("synthetic-big-cmap.ttf ({what})"), &font, &r, &mut rng, None, &mut rep) {
+                    ev.push(o.event.clone());
+                    rep.distinct += 1;
+                }
             }
         }
         Some("biggvar") => {
